@@ -22,9 +22,9 @@ and `ActorImpl::kill / exit / cleanup_from_self` (src/kernel/actor/ActorImpl.cpp
 THE ABSTRACTION.  An actor's code between two simcalls (a *slice*) is a function of the actor's OWN local state and of
 the answer to its previous simcall; it yields a new local state and ONE pending simcall.  Everything below that is not
 modelled: the context-switch assembly (raw/boost), thread parking/semaphores, the Parmap protocol (C49), user code that
-shares unsynchronised memory, and the part of `cleanup_from_self` that runs in the actor's context under
-`destruction_mutex` (it is modelled as the handling of the actor's final request by maestro, which is exact for
-contexts/nthreads:1).
+shares unsynchronised memory.  ONE exception to "a slice touches only local state" exists in the code and is modelled
+(`Cfg.cleanupInSlice`): the cancel loop of `cleanup_from_self`, which the dying actor's own context runs under
+`destruction_mutex`.
 
 Where the real containers are ordered by ADDRESS the model takes an address map `α` as a parameter (`Addr`) and sorts
 by it; `Cfg` says which of the two sites do so (code before the daemons fix / today / with proposed_fix.diff).
@@ -87,10 +87,13 @@ structure Addr where
 structure Cfg where
   daemonsByAddr : Bool      -- `std::set<ActorImpl*> daemons_`       (before fix 7f02bcf969)
   activitiesByAddr : Bool   -- `std::set<ActivityImplPtr> activities_` (today)
+  cleanupInSlice : Bool     -- the cancel loop of `cleanup_from_self` runs in the dying actor's own context, i.e. in the
+                            -- order in which the factory / the worker threads execute the slices (today)
 
-def Cfg.preFix : Cfg := ⟨true, true⟩
-def Cfg.current : Cfg := ⟨false, true⟩
-def Cfg.repaired : Cfg := ⟨false, false⟩   -- with props/C01/proposed_fix.diff
+def Cfg.preFix : Cfg := ⟨true, true, true⟩
+def Cfg.current : Cfg := ⟨false, true, true⟩
+/-- with props/C01/proposed_fix.diff (creation order) and props/C02/proposed_fix.diff (cancel loop run by maestro) -/
+def Cfg.repaired : Cfg := ⟨false, false, false⟩
 
 /-- insertion of `x` into a list sorted by `key` (stable) -/
 def insertBy (key : Nat → Nat) (x : Nat) : List Nat → List Nat
@@ -161,10 +164,24 @@ def maestroPhase (c : Cfg) (α : Addr) (s : St S) (ran : List Aid) : St S :=
   let s2 := wake { s1 with k := e.1 } e.2
   if S.onlyDaemons s2.k then (daemonOrder c α (S.daemons s2.k)).foldl (killActor c α) s2 else s2
 
+/-- `Context::stop()` → `cleanup_from_self()` of an actor whose code returned, executed by that actor's context at the
+    end of its slice (under `destruction_mutex`, so atomically, but in the order the threads get there) -/
+def selfCleanupOne (c : Cfg) (α : Addr) (s : St S) (a : Aid) : St S :=
+  match s.pend a with
+  | none => s
+  | some r =>
+    if S.isExit r && !S.dying s.k a then cleanup c α { s with pend := upd s.pend a none } a else s
+
+/-- the slices touch no kernel state, so the cancel loops of the actors that end in this sub-round, although interleaved
+    with the other slices, have the effect of being executed one after the other in the order `π` of the slices -/
+def selfCleanups (c : Cfg) (α : Addr) (s : St S) (π : List Aid) : St S := π.foldl (selfCleanupOne c α) s
+
 /-- one sub-round, the slices being executed in the order `π` (any permutation of `actors_to_run_`) -/
 def subroundWith (c : Cfg) (α : Addr) (π : List Aid) (s : St S) : St S :=
   let ran := s.toRun                                       -- swap + clear
-  maestroPhase c α (afterSlices { s with toRun := [] } π) ran
+  let s1 := afterSlices { s with toRun := [] } π
+  let s2 := if c.cleanupInSlice then selfCleanups c α s1 π else s1
+  maestroPhase c α s2 ran
 
 /-- the sub-round as the serial factories run it (list order) -/
 def subround (c : Cfg) (α : Addr) (s : St S) : St S := subroundWith c α s.toRun s
